@@ -226,10 +226,11 @@ def expected_fields(frame, prefix):
     }
 
 
-def diff_fields(got, want, prefix):
-    """Compare the framer's keys (prefix*) with the reference; -> list of differing keys (root-cause names)."""
+def diff_fields(got, want, prefix, ignore=None):
+    """Compare the framer's keys (prefix*) with the reference; -> list of differing keys (root-cause names).
+    ignore: prefix of keys added by later parsing stages (the client's CIP parse of the payload)."""
     bad = []
-    got = {k: v for k, v in got.items() if k.startswith(prefix)}
+    got = {k: v for k, v in got.items() if k.startswith(prefix) and not (ignore and k.startswith(ignore))}
     for k, v in want.items():
         if k == prefix + 'input' and v == {'hex': ''} and k not in got:
             continue
@@ -314,8 +315,7 @@ def framer_one(case, stats):
         classes.append('framer:eager-chaining')
     stats.case(case, nontrivial=nontrivial, classes=classes)
     got, end = run_framer(chunks, eager, eof, len(frames) + 2)
-    _judge_frames(stats, 'framer', case, frames, tail, [(d, c, s) for d, c, s in got], 'request.enip.')
-    if len(got) > len(frames):
+    if not _judge_frames(stats, 'framer', case, frames, tail, got, 'request.enip.'):
         return
     # what happened after the last complete frame
     if end[0] == 'runaway':
@@ -346,58 +346,72 @@ def framer_one(case, stats):
         # (clean EOF raising instead of terminating is not required by the statement: tolerated when nothing is consumed)
 
 
-def _judge_frames(stats, clause, case, frames, tail, got, prefix):
-    """got: [(flat data, consumed|None, sent_total|None)]"""
+def _judge_frames(stats, clause, case, frames, tail, got, prefix, ignore=None):
+    """got: [(flat data, consumed|None, sent_total|None)] -> True when every delivered frame is as expected"""
     total = 0
     for i, (data, consumed, sent) in enumerate(got):
         if i >= len(frames):
             stats.fail(clause, clause + ':parse-completed-from-incomplete-frame', case,
                        observed={'extra_frame': _short(data), 'index': i},
                        expected='%d complete frames; the %d trailing bytes are an unfinished frame' % (len(frames), len(tail)))
-            return
+            return False
         total += len(frames[i])
-        bad = diff_fields(data, expected_fields(frames[i], prefix), prefix)
+        bad = diff_fields(data, expected_fields(frames[i], prefix), prefix, ignore)
         if bad:
             stats.fail(clause, '%s:field-differs:%s' % (clause, '+'.join(sorted(set(b.split('[')[0] for b in bad))[:3])), case,
                        observed={'frame': i, 'keys': bad[:8], 'got': _short({k: v for k, v in data.items() if k.startswith(prefix)}, 400)},
                        expected=_short(expected_fields(frames[i], prefix), 400))
-            return
+            return False
         if consumed is not None and consumed != len(frames[i]):
             stats.fail(clause, clause + ':frame-consumes-wrong-byte-count', case, observed={'frame': i, 'consumed': consumed},
                        expected=len(frames[i]))
-            return
+            return False
         if sent is not None and sent != total:
             stats.fail(clause, clause + ':source.sent-not-running-total', case, observed={'frame': i, 'sent': sent}, expected=total)
-            return
+            return False
+    return True
 
 
-def sweep_chunkings(n, tier, part=None):
-    """The deterministic chunkings enumerated for a stream of n bytes -> iterable of (chunking, eof)."""
-    yield 'one', True
-    yield 'one', False
-    if n > RECV_BLOCK:
-        yield 'blocks', True
-    yield 'bytes', True
-    yield 'bytes', False
-    for k in splits_of(n, tier, part):
-        yield {'cuts': [k]}, True
-        if k % 7 == 0:
-            yield {'cuts': [k]}, False
-
-
-def splits_of(n, tier, part=None):
+def sweep_positions(frames, tail, sampled, part):
+    """Two-way split positions enumerated for a stream: every position 1..n-1, or (sampled, used by the quick
+    tier for streams holding a > 4096 byte payload, where positions deep inside one payload are equivalent for the
+    parser) every position within 40 bytes of a frame edge, within 2 of a multiple of the 4096-byte recv block,
+    and every 61st position.  part=(i, m): the i-th of m interleaved shares."""
+    n = sum(map(len, frames)) + len(tail)
+    if not sampled:
+        pos = list(range(1, n))
+    else:
+        edges = [0]
+        for f in frames:
+            edges.append(edges[-1] + len(f))
+        edges.append(n)
+        keep = set()
+        for e in edges:
+            keep.update(range(e - 40, e + 41))
+        for b in range(RECV_BLOCK, n, RECV_BLOCK):
+            keep.update(range(b - 2, b + 3))
+        keep.update(range(61, n, 61))
+        pos = sorted(k for k in keep if 0 < k < n)
     i, m = part or (0, 1)
-    for k in range(1, n):
-        if k % m == i:
-            yield k
+    return n, [k for j, k in enumerate(pos) if j % m == i], i == 0
 
 
 def pred_framer(case, stats):
     if case['chunking'] == 'sweep':
         frames, tail = build_stream(case)
-        n = sum(map(len, frames)) + len(tail)
-        for chunking, eof in sweep_chunkings(n, None, case.get('part')):
-            framer_one(dict(case, chunking=chunking, eof=eof, eager=False), stats)
+        n, positions, first = sweep_positions(frames, tail, case.get('sampled'), case.get('part'))
+        todo = []
+        if first:
+            todo += [('one', True), ('one', False), ('bytes', True), ('bytes', False)]
+            if n > RECV_BLOCK:
+                todo.append(('blocks', True))
+        for k in positions:
+            todo.append(({'cuts': [k]}, True))
+            if k % 7 == 0:
+                todo.append(({'cuts': [k]}, False))
+        base = {k: v for k, v in case.items() if k not in ('part', 'sampled')}
+        for chunking, eof in todo:
+            framer_one(dict(base, chunking=chunking, eof=eof, eager=False), stats)
         return
     framer_one(case, stats)
 
@@ -509,9 +523,7 @@ def client_one(case, stats):
     classes, nontrivial = classify_chunking(frames, tail, cuts, case['chunking'], 'client')
     stats.case(case, nontrivial=nontrivial, classes=classes)
     got, end = run_client(chunks)
-    before = len(stats.fails)
-    _judge_frames(stats, 'client', case, frames, tail, [(d, None, None) for d in got], 'enip.')
-    if len(got) > len(frames) or len(stats.fails) != before:
+    if not _judge_frames(stats, 'client', case, frames, tail, [(d, None, None) for d in got], 'enip.', 'enip.CIP'):
         return
     if len(got) < len(frames):
         stats.fail('client', 'client:complete-reply-not-delivered:%s' % (end[1] if end[0] == 'error' else end[0]), case,
@@ -539,10 +551,12 @@ def client_one(case, stats):
 def pred_client(case, stats):
     if case['chunking'] == 'sweep':
         frames, tail = build_stream(case)
-        n = sum(map(len, frames)) + len(tail)
-        for chunking in ['one', 'bytes'] + (['blocks'] if n > RECV_BLOCK else []) + \
-                [{'cuts': [k]} for k in splits_of(n, None, case.get('part'))]:
-            client_one(dict(case, chunking=chunking), stats)
+        n, positions, first = sweep_positions(frames, tail, case.get('sampled'), case.get('part'))
+        todo = (['one', 'bytes'] + (['blocks'] if n > RECV_BLOCK else [])) if first else []
+        todo += [{'cuts': [k]} for k in positions]
+        base = {k: v for k, v in case.items() if k not in ('part', 'sampled')}
+        for chunking in todo:
+            client_one(dict(base, chunking=chunking), stats)
         return
     client_one(case, stats)
 
@@ -943,8 +957,8 @@ def kway_case(draw, vocab, big):
 
 def framer_strategy(skey):
     kind = skey[0]
-    if kind == 'sweep':          # ('sweep', vocab, big, part)
-        return stream_spec(skey[1], skey[2]).map(lambda c: dict(c, chunking='sweep', part=skey[3]))
+    if kind == 'sweep':          # ('sweep', vocab, big, part, sampled)
+        return stream_spec(skey[1], skey[2]).map(lambda c: dict(c, chunking='sweep', part=skey[3], sampled=skey[4]))
     if kind == 'kway':           # ('kway', vocab, big)
         return st.builds(lambda c, eager, eof: dict(c, eager=eager, eof=eof), kway_case(skey[1], skey[2]),
                          st.booleans(), st.booleans())
@@ -957,7 +971,7 @@ def framer_strategy(skey):
 def client_strategy(skey):
     kind = skey[0]
     if kind == 'sweep':
-        return stream_spec('reply', skey[2]).map(lambda c: dict(c, chunking='sweep', part=skey[3]))
+        return stream_spec('reply', skey[2]).map(lambda c: dict(c, chunking='sweep', part=skey[3], sampled=skey[4]))
     if kind == 'kway':
         return kway_case('reply', skey[2])
     raise HarnessError('unknown strategy key %r' % (skey,))
@@ -967,9 +981,13 @@ TAG = {s['name']: s for s in TCP_SPECS}
 
 
 @st.composite
-def tcp_stream(draw, nwrites):
-    """nwrites Write Tag / Write Tag Fragmented requests on distinct (tag, element) slots with distinct non-zero values."""
+def tcp_stream(draw, nwrites, salt=0):
+    """nwrites Write Tag / Write Tag Fragmented requests on distinct (tag, element) slots with distinct non-zero values.
+    salt rotates the preference order, so that the simplest example (the first one Hypothesis tries) differs per job."""
     slots = [(s['name'], i) for s in TCP_SPECS for i in range(s['length'])]
+    slots = slots[(salt * 5) % len(slots):] + slots[:(salt * 5) % len(slots)]
+    svcs = ['write_tag', 'write_frag', 'write_tag']
+    svcs = svcs[salt % 3:] + svcs[:salt % 3]
     chosen = draw(st.lists(st.sampled_from(slots), min_size=nwrites, max_size=nwrites,
                            unique_by=lambda x: x[0] + str(x[1])))
     taken = set()
@@ -993,15 +1011,15 @@ def tcp_stream(draw, nwrites):
                 v = draw(st.integers(max(lo, -100), min(hi, 30000)).filter(lambda x: x != 0 and x not in used_values))
                 used_values.add(v)
             vals.append(v)
-        svc = draw(st.sampled_from(['write_tag', 'write_tag', 'write_frag']))
+        svc = draw(st.sampled_from(svcs))
         ops.append({'svc': svc, 'tag': name, 'form': 'sym', 'case': 0, 'elem': elem if (elem or draw(st.booleans())) else None,
-                    'count': n, 'offset': 0, 'type': spec['type'], 'values': vals, 'wrap': draw(st.booleans()),
+                    'count': n, 'offset': 0, 'type': spec['type'], 'values': vals, 'wrap': draw(st.booleans()) ^ bool((salt + j) & 1),
                     'ctx': hx(bytes([0xC0 + j]) + draw(st.binary(min_size=7, max_size=7)))})
     return {'ops': ops, 'k': 'all'}
 
 
 def tcp_strategy(skey):
-    return tcp_stream(skey[1])
+    return tcp_stream(skey[1], skey[2])
 
 
 STRATEGIES = {'framer': framer_strategy, 'client': client_strategy, 'tcp-truncation': tcp_strategy}
@@ -1030,43 +1048,42 @@ def shard(job):
 def run(tier, seed):
     thorough = tier == 'thorough'
     jobs = []
-    i = 0
+    idx = [0]
 
-    def add(kind, n, skey):
-        nonlocal i
-        jobs.append((kind, seed, i, n, skey))
-        i += 1
+    def add(kind, n, skey, parts=1):
+        """parts > 1: the same Hypothesis run (same seed => same streams) in several workers, each enumerating an
+        interleaved share of the split positions."""
+        for p in range(parts):
+            key = list(skey) if skey is not None else None
+            if parts > 1:
+                key[3] = [p, parts]
+            jobs.append((kind, seed, idx[0], n, key))
+        idx[0] += 1
 
     # (c) first: the longest jobs
     if thorough:
-        for nw, n, reps in ((1, 10, 2), (2, 8, 3), (3, 6, 4), (4, 5, 5)):
-            for _ in range(reps):
-                add('tcp', n, ['tcp', nw])
+        for salt in range(4):
+            for nw, n in ((4, 6), (3, 8), (2, 10), (1, 12)):
+                add('tcp', n, ['tcp', nw, salt])
     else:
-        for nw, n in ((4, 1), (4, 1), (3, 2), (3, 1), (2, 2), (2, 2), (1, 3)):
-            add('tcp', n, ['tcp', nw])
+        for nw, n, salt in ((4, 2, 0), (4, 2, 1), (3, 2, 0), (3, 2, 1), (2, 3, 0), (2, 3, 1), (1, 4, 0)):
+            add('tcp', n, ['tcp', nw, salt])
     add('tcp-register', 1, None)
-    # (a) streams with a > 4096 byte frame: every two-way split, the split positions dealt over several workers
-    parts = 12 if not thorough else 16
-    for rep in range(1 if not thorough else 6):
-        base = i
-        for p in range(parts):
-            jobs.append(('framer', seed, base, 2 if not thorough else 3, ['sweep', 'mixed', 'one', [p, parts]]))
-        i = base + 1
-    # (b) client: one big stream swept, dealt over workers
-    cparts = 6 if not thorough else 16
-    for rep in range(1 if not thorough else 3):
-        base = i
-        for p in range(cparts):
-            jobs.append(('client', seed, base, 2, ['sweep', 'reply', 'one', [p, cparts]]))
-        i = base + 1
-    # (a) small streams: every two-way split
-    for _ in range(10 if not thorough else 32):
-        add('framer', 5 if not thorough else 40, ['sweep', 'mixed', None, None])
-    # (b) small streams: every two-way split
+    # (a)/(b) streams holding a > 4096 byte frame: the split positions of each stream dealt over several workers
+    if thorough:
+        for _ in range(5):
+            add('framer', 3, ['sweep', 'mixed', 'one', None, False], parts=16)
+        for _ in range(2):
+            add('client', 3, ['sweep', 'reply', 'one', None, False], parts=16)
+    else:
+        add('framer', 3, ['sweep', 'mixed', 'one', None, True], parts=8)
+        add('client', 2, ['sweep', 'reply', 'one', None, True], parts=6)
+    # small streams: every two-way split
+    for _ in range(12 if not thorough else 32):
+        add('framer', 5 if not thorough else 40, ['sweep', 'mixed', None, None, False])
     for _ in range(8 if not thorough else 32):
-        add('client', 3 if not thorough else 20, ['sweep', 'reply', None, None])
-    # k-way
+        add('client', 3 if not thorough else 20, ['sweep', 'reply', None, None, False])
+    # Hypothesis-drawn k-way chunkings
     for _ in range(4 if not thorough else 16):
         add('framer', 120 if not thorough else 1200, ['kway', 'mixed', None])
         add('framer', 12 if not thorough else 100, ['kway', 'mixed', 'one'])
@@ -1076,10 +1093,15 @@ def run(tier, seed):
         for _ in range(4):
             add('framer', 6, ['huge'])
     stats = common.parallel(shard, jobs)
-    stats.exhaustive['framer:two-way-splits'] = ('every cut position 1..len-1 of every generated stream (EOF delivered; every 7th '
-                                                 'also without EOF), plus byte-at-a-time, one chunk and 4096-byte blocks, incl. '
-                                                 'streams with one payload > 4096 bytes')
-    stats.exhaustive['client:two-way-splits'] = 'every cut position 1..len-1 of every generated reply stream, plus byte-at-a-time and one chunk'
+    big = ('all positions' if thorough else 'positions within 40 bytes of a frame edge, within 2 of a 4096-byte block edge and every '
+           '61st position (quick tier; the thorough tier enumerates all)')
+    stats.exhaustive['framer:two-way-splits'] = (
+        'every cut position 1..len-1 of every generated stream without a > 4096 byte payload (EOF delivered; every 7th '
+        'position also without EOF), plus byte-at-a-time, one chunk and 4096-byte blocks; streams holding a > 4096 byte '
+        'payload: ' + big)
+    stats.exhaustive['client:two-way-splits'] = (
+        'every cut position 1..len-1 of every generated reply stream without a > 4096 byte payload, plus byte-at-a-time '
+        'and one chunk; streams holding a > 4096 byte reply: ' + big)
     stats.exhaustive['tcp:truncation-offsets'] = ('every offset 0..len of every generated request stream (1..4 writes) and of the '
                                                   'Register frame of an unregistered connection')
     return stats
